@@ -491,7 +491,7 @@ def extra_coverage(tier):
                                       "shape relations over {1..3}^4 x 2 stride sets (%d configurations, part 'lengths')" % len(sweep_configs())]}
 
 
-PARTS = [Part("conv", check_case, {"quick": 3000, "thorough": 60000}, strategy=st_case),
+PARTS = [Part("conv", check_case, {"quick": 6000, "thorough": 60000}, strategy=st_case),
          make_sweep("lengths", sweep_configs, check_case)]
 
 # thorough tier: the same Hypothesis test driven by atheris/libFuzzer (coverage on sigpy.conv/linop plain-Python code)
